@@ -1,33 +1,40 @@
 #!/usr/bin/env python3
-"""Apply every stored seeded change to /repo in turn, run the check of the property it breaks (quick tier, short budget)
-and report CAUGHT / MISSED / NOAPPLY. Always reverts /repo. Never run concurrently with another check.
+"""Apply every stored seeded change in turn to a scratch worktree of /repo (never /repo itself), run the check of the
+property it breaks against that tree (VERIF_REPO, quick tier, short budget) and report CAUGHT / MISSED / NOAPPLY.
 usage: seeded_all.py [budget_seconds] [id-prefix...]"""
 import json, os, subprocess, sys, glob
 V = os.path.dirname(os.path.dirname(os.path.abspath(__file__)))
 budget = sys.argv[1] if len(sys.argv) > 1 else "30"
 only = sys.argv[2:]
-env = dict(os.environ, VERIF_EVIDENCE_DIR="/tmp/mut_ev", VERIF_REPLAY_DIR="/tmp/mut_rp")
+MR = "/tmp/ovm_mutrepo_%d" % os.getpid()
+env = dict(os.environ, VERIF_REPO=MR, VERIF_EVIDENCE_DIR="/tmp/mut_ev_%d" % os.getpid(), VERIF_REPLAY_DIR="/tmp/mut_rp_%d" % os.getpid())
+subprocess.run(["git", "-C", "/repo", "worktree", "add", "-q", "--detach", MR, "HEAD"], check=True)
 res = []
-for d in sorted(glob.glob(V + "/seeded/*/")):
-    mid = os.path.basename(d.rstrip("/"))
-    if only and not any(mid.startswith(o) for o in only): continue
-    meta = json.load(open(d + "meta.json"))
-    prop = meta["breaks_property"]
-    if subprocess.run(["git", "-C", "/repo", "apply", "--check", d + "patch.diff"], capture_output=True).returncode != 0:
-        r3 = subprocess.run(["git", "-C", "/repo", "apply", "-3", d + "patch.diff"], capture_output=True)
-        if r3.returncode != 0:
-            print(mid, "NOAPPLY", flush=True); res.append((mid, "NOAPPLY")); subprocess.run(["git", "-C", "/repo", "checkout", "--", "."]); subprocess.run(["git","-C","/repo","reset","-q"]); continue
-        subprocess.run(["git","-C","/repo","reset","-q"])
-    else:
-        subprocess.run(["git", "-C", "/repo", "apply", d + "patch.diff"])
-    try:
-        r = subprocess.run([V + "/check", prop, "--budget", budget], cwd=V, env=env, stdout=subprocess.PIPE, stderr=subprocess.STDOUT, text=True)
-        v = [l for l in r.stdout.splitlines() if l.startswith("VIOLATION")]
-        st = "CAUGHT" if (r.returncode == 1 and v) else "MISSED rc=%d" % r.returncode
-        print(mid, prop, st, (v[0].split("class=")[1][:90] if v and "class=" in v[0] else ""), flush=True)
-        res.append((mid, st))
-    finally:
-        subprocess.run(["git", "-C", "/repo", "checkout", "--", "."])
+try:
+    for d in sorted(glob.glob(V + "/seeded/*/")):
+        mid = os.path.basename(d.rstrip("/"))
+        if only and not any(mid.startswith(o) for o in only): continue
+        meta = json.load(open(d + "meta.json"))
+        prop = meta["breaks_property"]
+        ok = subprocess.run(["git", "-C", MR, "apply", d + "patch.diff"], capture_output=True).returncode == 0
+        if not ok:
+            ok = subprocess.run(["git", "-C", MR, "apply", "-3", d + "patch.diff"], capture_output=True).returncode == 0
+            subprocess.run(["git", "-C", MR, "reset", "-q"])
+        if not ok:
+            print(mid, "NOAPPLY", flush=True); res.append((mid, "NOAPPLY"))
+            subprocess.run(["git", "-C", MR, "checkout", "--", "."]); continue
+        try:
+            r = subprocess.run([V + "/check", prop, "--budget", budget], cwd=V, env=env, stdout=subprocess.PIPE, stderr=subprocess.STDOUT, text=True)
+            v = [l for l in r.stdout.splitlines() if l.startswith("VIOLATION")]
+            st = "CAUGHT" if (r.returncode == 1 and v) else "MISSED rc=%d" % r.returncode
+            print(mid, prop, st, (v[0].split("class=")[1][:90] if v and "class=" in v[0] else ""), flush=True)
+            res.append((mid, st))
+        finally:
+            subprocess.run(["git", "-C", MR, "checkout", "--", "."])
+finally:
+    subprocess.run(["git", "-C", "/repo", "worktree", "remove", "--force", MR])
+    subprocess.run(["git", "-C", "/repo", "worktree", "prune"])
+    subprocess.run(["rm", "-rf", env["VERIF_EVIDENCE_DIR"], env["VERIF_REPLAY_DIR"]])
 bad = [m for m, s in res if s != "CAUGHT"]
 print("SEEDED total=%d caught=%d not_caught=%s" % (len(res), len(res) - len(bad), bad))
 sys.exit(1 if bad else 0)
